@@ -812,6 +812,12 @@ CORPUS = [
                                                           ("move", ("gv", "g")), ("turn", False, ("ALL",), ("ALL",)),
                                                           ("move", ("shift", ("gv", "g"), ("f", 1), ("f", 0))), ("move", ("gv", "g"))]}],
      "args": [("from", [0, 1], [0, 1])]},
+    # a later set_loc may go to a grid of another shape (only `move` is bound to the current shape)
+    {"kernels": [{"name": "main", "params": [G], "body": [("set", ("gv", "g")), ("move", ("shift", ("gv", "g"), ("f", 1), ("f", 0))),
+                                                          ("set", ("from", [0, 1, 2], [5])), ("turn", True, ("ALL",), ("ALL",)),
+                                                          ("move", ("from", [0, 1, 4], [6])), ("turn", False, ("ALL",), ("ALL",)),
+                                                          ("set", ("from", [7], [])), ("set", ("gv", "g"))]}],
+     "args": [("from", [0, 1], [0, 1])]},
     {"kernels": [{"name": "main", "params": [G], "body": [("set", ("gv", "g")), ("move", ("shift", ("gv", "g"), ("f", 1), ("f", 0))),
                                                           ("move", ("shift", ("gv", "g"), ("f", 1), ("f", 1))),
                                                           ("move", ("shift", ("gv", "g"), ("f", -1), ("f", 2))), ("move", ("gv", "g"))]}],
